@@ -451,6 +451,158 @@ theorem mesh_nearest_eq_bruteforce (tri : Nat → V3 K × V3 K × V3 K) (tree : 
   exact h
 end meshq
 
+/-! ## the ray query of a mesh over its real OBB tree = brute force over all faces -/
+section rayq
+variable {K : Type} [Field K] [LinearOrder K] [IsStrictOrderedRing K]
+
+theorem slab_aux (mn mx lam : K) (h1 : mn ≤ lam) (h2 : lam ≤ mx) (hlam : 0 ≤ lam) :
+    ∃ st' : Option K × Option K, (if mx < mn ∨ mx < 0 then none else some (some mn, some mx)) = some st' ∧
+      (∀ m, st'.1 = some m → m ≤ lam) ∧ (∀ M, st'.2 = some M → lam ≤ M) := by
+  have : ¬ (mx < mn ∨ mx < 0) := by rintro (h | h) <;> linarith
+  rw [if_neg this]
+  refine ⟨_, rfl, ?_, ?_⟩
+  · intro m hm; simp only [Option.some.injEq] at hm; linarith
+  · intro M hM; simp only [Option.some.injEq] at hM; linarith
+
+/-- one slab keeps the invariant `minDist ≤ λ ≤ maxDist` for every ray parameter `λ ≥ 0` whose point lies inside the slab,
+and does not reject the ray -/
+theorem slab_sound (o d s lam : K) (st : Option K × Option K) (hlam : 0 ≤ lam)
+    (hin0 : 0 ≤ o + lam * d) (hin1 : o + lam * d ≤ s)
+    (h1 : ∀ m, st.1 = some m → m ≤ lam) (h2 : ∀ M, st.2 = some M → lam ≤ M) :
+    ∃ st', slab o d s st = some st' ∧ (∀ m, st'.1 = some m → m ≤ lam) ∧ (∀ M, st'.2 = some M → lam ≤ M) := by
+  unfold slab
+  by_cases hd : d < 0 ∨ 0 < d
+  · rw [if_pos hd]
+    dsimp only
+    have hlo : (if -o / d < (s - o) / d then -o / d else (s - o) / d) ≤ lam := by
+      rcases hd with hd | hd
+      · have e2 : (s - o) / d ≤ lam := by rw [div_le_iff_of_neg hd]; linarith
+        split_ifs with h <;> linarith
+      · have e1 : -o / d ≤ lam := by rw [div_le_iff₀ hd]; linarith
+        split_ifs with h <;> linarith
+    have hhi : lam ≤ (if -o / d < (s - o) / d then (s - o) / d else -o / d) := by
+      rcases hd with hd | hd
+      · have e1 : lam ≤ -o / d := by rw [le_div_iff_of_neg hd]; linarith
+        split_ifs with h <;> linarith
+      · have e2 : lam ≤ (s - o) / d := by rw [le_div_iff₀ hd]; linarith
+        split_ifs with h <;> linarith
+    generalize (if -o / d < (s - o) / d then -o / d else (s - o) / d) = lo at hlo ⊢
+    generalize (if -o / d < (s - o) / d then (s - o) / d else -o / d) = hi at hhi ⊢
+    obtain ⟨a, b⟩ := st
+    cases a with
+    | none =>
+      cases b with
+      | none => exact slab_aux _ _ _ hlo hhi hlam
+      | some M =>
+        have hM := h2 M rfl
+        refine slab_aux _ _ _ hlo ?_ hlam
+        dsimp only; split_ifs <;> linarith
+    | some m =>
+      have hm := h1 m rfl
+      cases b with
+      | none =>
+        refine slab_aux _ _ _ ?_ hhi hlam
+        dsimp only; split_ifs <;> linarith
+      | some M =>
+        have hM := h2 M rfl
+        refine slab_aux _ _ _ ?_ ?_ hlam
+        · dsimp only; split_ifs <;> linarith
+        · dsimp only; split_ifs <;> linarith
+  · rw [if_neg hd]
+    have hd0 : d = 0 := by
+      rcases lt_trichotomy d 0 with h | h | h
+      · exact absurd (Or.inl h) hd
+      · exact h
+      · exact absurd (Or.inr h) hd
+    subst hd0
+    have : ¬ (o < 0 ∨ s < o) := by
+      rintro (h | h) <;> simp at hin0 hin1 <;> linarith
+    rw [if_neg this]
+    exact ⟨st, rfl, h1, h2⟩
+
+omit [LinearOrder K] [IsStrictOrderedRing K] in
+theorem inv_ray_point (X : Xf K) (o d : V3 K) (lam : K) :
+    Xf.inv X (V3.add o (V3.smul lam d)) = V3.add (Xf.inv X o) (V3.smul lam (M3.tmulVec X.R d)) := by
+  simp only [Xf.inv, M3.tmulVec, M3.mulVec, M3.transpose, M3.col0, M3.col1, M3.col2, V3.sub, V3.dot, V3.add, V3.smul]
+  apply V3.ext' <;> (simp only; ring)
+
+/-- **admissible ray bound**: if the ray point at parameter `λ ≥ 0` lies in the box, `OrientedBoundingBox::intersectsRay`
+reports a hit with entry distance `≤ λ` (so the box's distance never exceeds the hit parameter of a triangle it contains) -/
+theorem obb_ray_admissible (negInf : K) (hneg : negInf ≤ 0) (b : Obb K) (o d : V3 K) (lam : K) (hlam : 0 ≤ lam)
+    (hin : b.contains (V3.add o (V3.smul lam d)) = true) : ∃ m, b.ray negInf o d = some m ∧ m ≤ lam := by
+  simp only [Obb.contains, Bool.and_eq_true, within_iff, inv_ray_point] at hin
+  obtain ⟨⟨⟨x0, x1⟩, ⟨y0, y1⟩⟩, ⟨z0, z1⟩⟩ := hin
+  simp only [V3.add, V3.smul] at x0 x1 y0 y1 z0 z1
+  obtain ⟨s1, e1, a1, b1⟩ := slab_sound (Xf.inv b.X o).x (M3.tmulVec b.X.R d).x b.size.x lam (none, none) hlam x0 x1
+    (by intro m h; simp at h) (by intro m h; simp at h)
+  obtain ⟨s2, e2, a2, b2⟩ := slab_sound (Xf.inv b.X o).y (M3.tmulVec b.X.R d).y b.size.y lam s1 hlam y0 y1 a1 b1
+  obtain ⟨s3, e3, a3, b3⟩ := slab_sound (Xf.inv b.X o).z (M3.tmulVec b.X.R d).z b.size.z lam s2 hlam z0 z1 a2 b2
+  simp only [Obb.ray, e1, e2, e3]
+  refine ⟨_, rfl, ?_⟩
+  cases h : s3.1 with
+  | none => simp only; split_ifs <;> linarith
+  | some m => simp only; have := a3 m h; split_ifs <;> linarith
+
+omit [IsStrictOrderedRing K] in
+/-- `intersectsRay` of a face never reports a negative ray parameter -/
+theorem triRay_param_nonneg (n v1 v2 v3 o d : V3 K) (t : K) (h : triRay n v1 v2 v3 o d = some t) : 0 ≤ t := by
+  unfold triRay at h
+  dsimp only at h
+  by_cases hvd : V3.dot n d < 0 ∨ 0 < V3.dot n d
+  · rw [if_pos hvd] at h
+    by_cases ht : V3.dot n (V3.sub v1 o) / V3.dot n d < 0
+    · rw [if_pos ht] at h; exact absurd h (by simp)
+    · rw [if_neg ht] at h
+      split_ifs at h <;> (simp only [Option.some.injEq] at h; rw [← h]; exact le_of_not_gt ht)
+  · rw [if_neg hvd] at h; exact absurd h (by simp)
+
+/-- hypothesis of the ray theorem (NOT proved about `triRay`; the harness compares every reported hit with an independent
+ray–triangle routine): a reported hit parameter is non-negative and its point lies in the face (convex combination) -/
+def HitInFace (tri : Nat → V3 K × V3 K × V3 K) (cost : Nat → Option K) (o d : V3 K) : Prop :=
+  ∀ f k, cost f = some k → 0 ≤ k ∧ ∃ u s t : K, 0 ≤ u ∧ 0 ≤ s ∧ 0 ≤ t ∧ u + s + t = 1 ∧
+    V3.add o (V3.smul k d) = V3.add (V3.smul u (tri f).1) (V3.add (V3.smul s (tri f).2.1) (V3.smul t (tri f).2.2))
+
+theorem XT.ray_bound_admissible (negInf : K) (hneg : negInf ≤ 0) (tri : Nat → V3 K × V3 K × V3 K) (cost : Nat → Option K)
+    (o d : V3 K) (hh : HitInFace tri cost o d) (t : XT K) (h : XT.Valid tri t) :
+    LB cost (t.box.ray negInf o d) t.faces := by
+  obtain ⟨_, hc⟩ := XT.valid_top tri t h
+  intro f hf k hk
+  obtain ⟨hk0, u, s, w, hu, hs, hw, hsum, hp⟩ := hh f k hk
+  obtain ⟨c1, c2, c3⟩ := hc f hf
+  exact obb_ray_admissible negInf hneg t.box o d k hk0 (by rw [hp]; exact box_contains_hull t.box _ _ _ u s w hu hs hw hsum c1 c2 c3)
+
+theorem XT.adm_ray (negInf : K) (hneg : negInf ≤ 0) (tri : Nat → V3 K × V3 K × V3 K) (cost : Nat → Option K)
+    (o d : V3 K) (hh : HitInFace tri cost o d) (t : XT K) (h : XT.Valid tri t) :
+    Adm cost (t.toBT (fun b => b.ray negInf o d)) := by
+  induction t with
+  | leaf b fs => trivial
+  | node b c1 c2 ih1 ih2 =>
+    obtain ⟨_, _, v1, v2⟩ := h
+    refine ⟨?_, ?_, ih1 v1, ih2 v2⟩
+    · rw [XT.items_toBT]; exact XT.ray_bound_admissible negInf hneg tri cost o d hh c1 v1
+    · rw [XT.items_toBT]; exact XT.ray_bound_admissible negInf hneg tri cost o d hh c2 v2
+
+/-- **mesh ray = brute force** for the executed query `meshRay` over the exported real tree, given that every node box
+contains the vertices below it (checked per run) and that a face's reported hit lies in the face (`HitInFace`,
+predicate-only): the face found has the smallest hit parameter of *all* faces, and "no hit" means no face is hit. -/
+theorem mesh_ray_eq_bruteforce (negInf : K) (hneg : negInf ≤ 0) (tri : Nat → V3 K × V3 K × V3 K) (cost : Nat → Option K)
+    (tree : XT K) (o d : V3 K) (hv : XT.Valid tri tree) (hh : HitInFace tri cost o d) :
+    Spec cost tree.faces (meshRay negInf cost tree o d) := by
+  unfold meshRay
+  cases hroot : tree.box.ray negInf o d with
+  | none =>
+    intro f hf
+    cases hc : cost f with
+    | none => rfl
+    | some k =>
+      obtain ⟨m, hm, _⟩ := XT.ray_bound_admissible negInf hneg tri cost o d hh tree hv f hf k hc
+      rw [hroot] at hm; exact absurd hm (by simp)
+  | some m =>
+    have h := bnb_eq_bruteforce _ _ (XT.adm_ray negInf hneg tri cost o d hh tree hv)
+    rw [XT.items_toBT] at h
+    exact h
+end rayq
+
 /-! ## bounding spheres -/
 section spheres
 variable {K : Type} [Field K] [LinearOrder K] [IsStrictOrderedRing K]
